@@ -86,11 +86,16 @@ func Decode(tp *onnx.TensorProto) (v *val.V, c Class, why string) {
 		if d == 0 {
 			zero = true
 		}
-		if d > 1<<24 || n*int(d) > 1<<26 {
-			return nil, Unspecified, "huge extents"
-		}
 		shape[i] = int(d)
-		n *= int(d)
+		// saturating product: an element count beyond 2^40 can never match a payload that fits in memory
+		if d > 0 && n > (1<<40)/int(d) {
+			n = 1 << 40
+		} else {
+			n *= int(d)
+		}
+	}
+	if n >= 1<<40 && !zero {
+		return nil, Malformed, fmt.Sprintf("shape declares more than 2^40 elements, payload cannot match")
 	}
 	own, other := typedLens(tp, dt)
 	raw := len(tp.RawData)
